@@ -6,7 +6,7 @@ use crate::sched;
 use crate::spec::{self, LitKind, SpecResult};
 use crate::sym::*;
 use exmex::prelude::*;
-use exmex::{DeepEx, Express, FlatEx};
+use exmex::{DeepEx, Express, FlatEx, MatchLiteral};
 use serde_json::{json, Value};
 use std::collections::BTreeSet;
 use std::sync::{Arc, Mutex};
@@ -65,6 +65,47 @@ pub enum Job {
     ParseVal(usize),
     /// the value type over 64-bit integers (a second instantiation of the generic operators)
     ParseVal64(usize),
+    /// six different pattern-based literal matchers (`literal_matcher_from_pattern!`) used one
+    /// after the other on this thread, starting with matcher `rot`, then the first one again
+    Matchers(usize),
+}
+
+exmex::literal_matcher_from_pattern!(M0, r"^[0-9]+(\.[0-9]+)?");
+exmex::literal_matcher_from_pattern!(M1, r"^[0-9]+");
+exmex::literal_matcher_from_pattern!(M2, r"^([0-9]+\.[0-9]*|\.[0-9]+)");
+exmex::literal_matcher_from_pattern!(M3, r"^[0-9]+(\.[0-9]+)?(e[0-9]+)?");
+exmex::literal_matcher_from_pattern!(M4, r"^[0-9]{1,2}");
+exmex::literal_matcher_from_pattern!(M5, r"^[0-9]+/[0-9]+|^[0-9]+");
+const MATCHER_TEXTS: [&str; 4] = ["1.5+x", "2e1*x", ".5+x", "123+x"];
+/// what matcher k makes of text j at x = 1 (None = must be rejected)
+fn matcher_expectation(k: usize, j: usize) -> Option<f64> {
+    match (k, j) {
+        (0, 0) => Some(2.5),
+        (0, 3) => Some(124.0),
+        (2, 0) => Some(2.5),
+        (2, 2) => Some(1.5),
+        (3, 0) => Some(2.5),
+        (3, 1) => Some(20.0),
+        (3, 3) => Some(124.0),
+        (1, 3) | (5, 3) => Some(124.0),
+        // M4 reads "123" as 12 followed by 3: two operands side by side
+        _ => None,
+    }
+}
+fn matcher_outcome(k: usize, text: &str) -> Option<f64> {
+    macro_rules! go {
+        ($m:ty) => {
+            FlatEx::<f64, exmex::FloatOpsFactory<f64>, $m>::parse(text).ok().and_then(|e| e.eval(&[1.0]).ok())
+        };
+    }
+    match k {
+        0 => go!(M0),
+        1 => go!(M1),
+        2 => go!(M2),
+        3 => go!(M3),
+        4 => go!(M4),
+        _ => go!(M5),
+    }
 }
 
 fn point(p: u32, n: usize) -> Vec<Sym> {
@@ -229,6 +270,24 @@ pub fn run_job(job: &Job, shared: &Shared, shared_text: &'static str, sharedw: &
             }
             Ok(format!("{job:?}={}", want))
         }
+        Job::Matchers(rot) => {
+            for step in 0..=6 {
+                let k = (rot + step) % 6;
+                for (j, text) in MATCHER_TEXTS.iter().enumerate() {
+                    let got = matcher_outcome(k, text);
+                    let want = matcher_expectation(k, j);
+                    let same = match (got, want) {
+                        (Some(a), Some(b)) => (a - b).abs() < 1e-12,
+                        (None, None) => true,
+                        _ => false,
+                    };
+                    if !same {
+                        return Err(format!("literal matcher M{k} on {text:?} (after the matchers {:?} on this thread): {got:?} instead of {want:?}", (0..step).map(|s| (rot + s) % 6).collect::<Vec<_>>()));
+                    }
+                }
+            }
+            Ok(format!("{job:?}=ok"))
+        }
         Job::ParseVal64(i) => {
             let e = exmex::parse_val::<i64, f64>(VAL64_TEXTS[*i]).map_err(|e| e.msg().to_string())?;
             let v = e.eval(&[exmex::Val::Int(1)]).map_err(|e| e.msg().to_string())?;
@@ -258,6 +317,7 @@ pub fn bodies() -> Vec<Body> {
         Body { name: "B2-parse-same-and-different", shared_text: TEXTS[3], shared_deep: false, threads: vec![vec![ParseEval(0, 0, false, 0), ParseEval(4, 1, true, 1)], vec![ParseEval(4, 1, false, 2), ParseEval(4, 0, true, 3)]] },
         Body { name: "B2-parse-default-tables", shared_text: TEXTS[3], shared_deep: false, threads: vec![vec![ParseEval(2, 0, false, 0), ParseVal(0), ParseF64(0)], vec![ParseF64(1), ParseEval(2, 1, false, 1), ParseVal(1)]] },
         Body { name: "B2-value-type-two-integer-widths", shared_text: TEXTS[3], shared_deep: false, threads: vec![vec![ParseVal(2), ParseVal64(0)], vec![ParseVal64(1), ParseVal(2)]] },
+        Body { name: "B2-six-literal-matchers", shared_text: TEXTS[3], shared_deep: false, threads: vec![vec![Matchers(0)], vec![Matchers(3)]] },
         Body { name: "B3-convert-clone-while-evaluating", shared_text: TEXTS[1], shared_deep: false, threads: vec![vec![CloneConvert(0)], vec![EvalShared(1), EvalShared(2)]] },
         Body { name: "B4-uncompiled-shared-evalvec-and-compiled-clones", shared_text: TEXTS[3], shared_deep: false, threads: vec![vec![EvalVecW(0), CompileCloneW(1)], vec![CompileCloneW(2), EvalVecW(3)]] },
         Body { name: "B1-three-threads", shared_text: TEXTS[2], shared_deep: false, threads: vec![vec![EvalShared(0)], vec![EvalShared(1)], vec![ParseEval(2, 1, false, 2)]] },
@@ -492,7 +552,7 @@ fn fresh_process_replays(bi: usize, rep: &mut Report) {
 
 pub fn run(tier: Tier) -> i32 {
     let mut rep = Report::new("C20", tier);
-    rep.rule = "schedules: real exmex code on shuttle threads under a preemption-bounded DFS scheduler (scheduling point = every call-back into the harness data type / operator factory / literal matcher), all schedules with <= b preemptions, b iterated 0,1,2(,3); sequential histories: two operator tables over the same data type with equally many operators in different slots and a prefix-related operator pair (`*`, `**`); all call sequences up to the length bound over 17 jobs (value type over 32- and 64-bit integers) (incl. two shared expressions of 2050 / 2300 operands) in one process; observations must equal the schedule-independent reference; distinct = schedules / histories; non-trivial = schedule with at least one preemption".into();
+    rep.rule = "schedules: real exmex code on shuttle threads under a preemption-bounded DFS scheduler (scheduling point = every call-back into the harness data type / operator factory / literal matcher), all schedules with <= b preemptions, b iterated 0,1,2(,3); sequential histories: two operator tables over the same data type with equally many operators in different slots and a prefix-related operator pair (`*`, `**`); all call sequences up to the length bound over 19 jobs (value type over 32- and 64-bit integers; six pattern-based literal matchers in rotation) (incl. two shared expressions of 2050 / 2300 operands) in one process; observations must equal the schedule-independent reference; distinct = schedules / histories; non-trivial = schedule with at least one preemption".into();
     rep.assumptions = vec![
         "code between two call-backs runs atomically; lazy_static's Once is trusted (who initialises first is enumerated)".into(),
         "Send + Sync of FlatEx / DeepEx is asserted at compile time (harness and /verif/probe)".into(),
@@ -564,8 +624,8 @@ pub fn run(tier: Tier) -> i32 {
     fresh_process_replays(4, &mut rep);
     // sequential histories
     use Job::*;
-    let jobs = vec![EvalShared(0), EvalVecShared(1), ParseEval(0, 0, false, 0), ParseEval(0, 1, false, 1), ParseEval(4, 0, true, 2), ParseEval(4, 1, true, 3), ParseEval(1, 1, false, 0), ParseEval(2, 0, true, 1), CloneConvert(2), EvalVecW(0), CompileCloneW(1), ParseF64(0), ParseVal(0), ParseVal(2), ParseVal64(0), EvalBig(0, 0), EvalBig(1, 1)];
+    let jobs = vec![EvalShared(0), EvalVecShared(1), ParseEval(0, 0, false, 0), ParseEval(0, 1, false, 1), ParseEval(4, 0, true, 2), ParseEval(4, 1, true, 3), ParseEval(1, 1, false, 0), ParseEval(2, 0, true, 1), CloneConvert(2), EvalVecW(0), CompileCloneW(1), ParseF64(0), ParseVal(0), ParseVal(2), ParseVal64(0), Matchers(0), Matchers(4), EvalBig(0, 0), EvalBig(1, 1)];
     let m = Seq { jobs: Arc::new(jobs), max_len: if tier.thorough() { 5 } else { 4 } };
-    explore(m, &mut rep, "c20", "sequential call histories over 17 jobs (value type over 32- and 64-bit integers)");
+    explore(m, &mut rep, "c20", "sequential call histories over 19 jobs (value type over 32- and 64-bit integers; six pattern-based literal matchers in rotation)");
     rep.finish()
 }
